@@ -7,8 +7,9 @@ from sievelib import commands
 from sievelib.factory import FiltersSet
 from sievelib.parser import Parser
 
-NAMES = ["rule", "é€ name", "a#b", 'q"x', "x: y", "{", "Filter", "1", "é", "Desc ription", "tab\tin", "№ 5"]
-PREFIXES = [("# Filter: ", "# Description: "), ("#F:", "#D:"), ("# name = ", "# about = "), ("#§ ", "#¶ ")]
+NAMES = ["rule", "é€ name", "a#b", 'q"x', "x: y", "{", "Filter", "1", "é", "Desc ription", "tab\tin", "№ 5", "50% off", "%s", "{0}"]
+PREFIXES = [("# Filter: ", "# Description: "), ("#F:", "#D:"), ("# name = ", "# about = "), ("#§ ", "#¶ "), ("# 100% rule: ", "# %s about: "),
+            ("#%% ", "#%(name)s "), ("# {} ", "# {0}{name} ")]
 
 
 def enc_val(x):
